@@ -453,8 +453,44 @@ class Flow:
             return self._stmt(s.get('sub'), ctx)
         if k == 'OtherStmt':
             raise AnalysisBroken('unsupported statement %s in %s' % (s.get('cls'), ctx['fn']['name']))
-        # expression statement
+        # expression statement: a plain call of a private helper of the same class (an extracted method) is analysed as if its
+        # body stood here, so that splitting an anchor function into helpers changes no verdict
+        h = self._inlinable_helper(s, ctx)
+        if h is not None and ctx.get('depth', 0) < 2:
+            pre = self._expr_events(s, ctx)   # argument evaluation + the call event itself (+ its exceptional edges)
+            out = []
+            ctx2 = dict(ctx)
+            ctx2['depth'] = ctx.get('depth', 0) + 1
+            for evs, o in pre:
+                if o != 'normal':
+                    out.append((evs, o))
+                    continue
+                for evs2, o2 in self._stmt(h['body'], ctx2):
+                    out.append((evs + evs2, 'normal' if o2 == 'return' else o2))
+            return out
         return self._expr_events(s, ctx)
+
+    # functions the rules are anchored in keep their call events un-inlined
+    ANCHOR_SIMPLE = {'open', 'close', 'read', 'write', 'createObject', 'uncompressedFile2ReadWriteQueue', 'readWriteQueue2UncompressedFile',
+                     'compressedFile2UncompressedFile', 'uncompressedFile2CompressedFile', 'uncompressedFileReadThread',
+                     'uncompressedFileWriteThread', 'compressedFileReadThread', 'compressedFileWriteThread', 'is_open', 'good', 'eof',
+                     'defaultLogContainerSize', 'setDefaultLogContainerSize'}
+
+    def _inlinable_helper(self, s, ctx):
+        if not isinstance(s, dict) or s.get('k') != 'Call' or not s.get('calleeInRoot'):
+            return None
+        fn = ctx['fn']
+        if s.get('clsq') != fn.get('class') or s.get('virt') or s.get('fn') in self.ANCHOR_SIMPLE:
+            return None
+        if fn.get('class') != 'Vector::BLF::File':
+            return None
+        o = strip_all_casts(s.get('obj')) if s.get('obj') is not None else None
+        if o is not None and not (isinstance(o, dict) and (o.get('k') == 'This' or (o.get('k') == 'Ref' and o.get('dk') == 'parm'))):
+            return None
+        cands = [f for f in self.F.functions.get(s.get('callee'), []) if f['sig'] == s.get('csig')]
+        if len(cands) != 1 or cands[0]['name'] == fn['name'] or cands[0].get('ret') != 'void':
+            return None
+        return cands[0]
 
     @staticmethod
     def _handler_for(trystmt, eff):
